@@ -23,8 +23,18 @@
    A deviation D in Dev switches the effect on (the behaviour of the code as it is today); the design
    run has Dev = {} and all invariants hold; with a deviation on, TLC finds the violated clause
    (negative control).  TLC enumerates every sequence of classes within the bounds; each sequence is
-   instantiated as real bytes and replayed on the real node (harness/adapters/wire). *)
-EXTENDS Integers, Sequences, FiniteSets, TLC
+   instantiated as real bytes and replayed on the real node (harness/adapters/wire).
+
+   THE SEQUENCE LAYER (SeqOn).  On an established connection the remote party may also send any sequence of well-framed
+   messages whose payloads decode but whose content is arbitrary (WireSeq.tla): BlocksMsg with any list of block
+   descriptors (SBlocks: junk of any height on any parent, several per height, repetitions, and the valid blocks a
+   remote deputy can produce, in any order), ConfirmMsg for any of them (SConfirm), interleaved with single-message
+   classes (SeqMix), with the manager's own queue timer (Tick) and with reconnects (the node's state outlives the
+   connection).  The state these sequences act on is pm: the abstract content of the protocol manager's block cache and
+   confirm cache and what the chain has.  The design keeps the node alive and its state within the envelope of
+   WireSeq (SeqEnvelope); TLC's state graph over pm makes the engine reach every abstract cache content with every
+   message, which is then replayed on the real node. *)
+EXTENDS Integers, Sequences, FiniteSets, TLC, WireSeq
 
 CONSTANTS Table,        \* see above
           Carriers,     \* classes (kept, or "any") after which the enumeration continues on the same connection
@@ -36,13 +46,22 @@ CONSTANTS Table,        \* see above
           MaxConns, ProbeAfter,
           MaxFrameK, SlackK, C,   \* allocation bound: MaxFrameK + SlackK + C * KiB received in the step
           HsLimitDevK,  \* the pre-handshake length limit of today's code (1 GiB), used by the deviation only
-          Dev
+          Dev,
+          SeqOn,        \* TRUE: the sequence layer is enumerated on an established connection (instead of the Est classes outside SeqMix)
+          SeqBlocks,    \* the universe of block descriptors
+          SeqMsgs,      \* the BlocksMsg payloads: a set of sequences over SeqBlocks
+          SeqConfirms,  \* the ConfirmMsg payloads: a set of pairs <<block descriptor, signer>>
+          SeqMix        \* single-message classes interleaved with the sequence layer
 
 VARIABLES phase,   \* "Idle" | "PreHs" | "OutHs" | "ProtoHs" | "Est" | "Closed" | "Undet" (closed or kept, both acceptable) | "Done"
           dir,     \* who opened the current connection: "in" the remote party (node accepts), "out" the node (it dialed); "none" before
           alive, stuck, allocK, recvK,   \* node still running / a handler deadlocked / KiB allocated resp. received in the last step
-          n, conns, hist
-vars == <<phase, dir, alive, stuck, allocK, recvK, n, conns, hist>>
+          n, conns, hist,
+          pm,      \* sequence layer: abstract out-of-order state of the protocol manager [known, stable, bc, cc] (WireSeq)
+          univ     \* = SeqBlocks, constant; in the state so that the binding reads the universe from the initial state
+vars == <<phase, dir, alive, stuck, allocK, recvK, n, conns, hist, pm, univ>>
+\* in the sequence layer the history does not matter (a second connection is a full one, not a probe)
+SeqView == <<phase, dir, alive, stuck, n, pm>>
 
 HsPhases == {"PreHs", "OutHs"}                    \* the node reads a handshake packet: a request (accepting) resp. a response (dialing)
 OpenPhases == {"PreHs", "OutHs", "ProtoHs", "Est"}
@@ -54,6 +73,7 @@ Bound(rk) == MaxFrameK + SlackK + C * rk
 
 Init == /\ phase = "Idle" /\ dir = "none" /\ alive = TRUE /\ stuck = FALSE /\ allocK = 0 /\ recvK = 0
         /\ n = 0 /\ conns = 0 /\ hist = <<>>
+        /\ pm = PmInit /\ univ = SeqBlocks
 
 \* The node receives one input of class c.
 Recv(c) ==
@@ -61,7 +81,8 @@ Recv(c) ==
   /\ phase \in OpenPhases
   /\ n < MaxIn[dir][phase]
   /\ c \in Heavy => n = 0
-  /\ conns > 1 => c = Probe[phase]
+  /\ (conns > 1 /\ ~SeqOn) => c = Probe[phase]
+  /\ (SeqOn /\ phase = "Est") => c \in SeqMix
   /\ \E t \in Rows(c, phase) :
        LET react == t[3]  annK == t[4]  sentK == t[5]
            eff == IF t[6] \in Dev THEN t[7] ELSE "none"
@@ -76,32 +97,67 @@ Recv(c) ==
           /\ stuck' = (eff = "stuck")
           /\ allocK' = al /\ recvK' = sentK
           /\ phase' = np
-          /\ n' = IF np = phase THEN n + 1 ELSE 0
-  /\ hist' = Append(hist, c)
-  /\ UNCHANGED <<conns, dir>>
+          /\ n' = IF np = phase THEN (IF SeqOn /\ phase = "Est" THEN n ELSE n + 1) ELSE 0
+  /\ hist' = IF SeqOn THEN hist ELSE Append(hist, c)
+  /\ UNCHANGED <<conns, dir, pm, univ>>
 
 \* A connection is opened in direction d: at the start, and again after the node closed (or may have closed) the previous
 \* one - the node must still serve the remote party (and still be able to dial it).
 CanOpen(d) ==
   /\ alive /\ ~stuck
   /\ \/ phase = "Idle" /\ d \in Dirs
-     \/ phase \in {"Closed", "Undet"} /\ conns < MaxConns /\ Len(hist) <= ProbeAfter /\ (CrossProbe \/ d = dir) = TRUE
+     \/ phase \in {"Closed", "Undet"} /\ ~SeqOn /\ conns < MaxConns /\ Len(hist) <= ProbeAfter /\ (CrossProbe \/ d = dir) = TRUE
+     \/ phase \in {"Closed", "Undet"} /\ SeqOn /\ d \in Dirs      \* sequence layer: the remote party comes back as often as it likes
 \* the remote party connects: the node accepts and waits for a handshake request
 Connect ==
   /\ CanOpen("in")
   /\ phase' = "PreHs" /\ dir' = "in"
-  /\ conns' = conns + 1 /\ n' = 0 /\ hist' = Append(hist, "Connect")
+  /\ conns' = (IF SeqOn THEN 1 ELSE conns + 1) /\ n' = 0 /\ hist' = (IF SeqOn THEN hist ELSE Append(hist, "Connect"))
   /\ allocK' = 0 /\ recvK' = 0
-  /\ UNCHANGED <<alive, stuck>>
+  /\ UNCHANGED <<alive, stuck, pm, univ>>
 \* the node dials the remote party: it sends its handshake request and waits for the response
 Dial ==
   /\ CanOpen("out")
   /\ phase' = "OutHs" /\ dir' = "out"
-  /\ conns' = conns + 1 /\ n' = 0 /\ hist' = Append(hist, "Dial")
+  /\ conns' = (IF SeqOn THEN 1 ELSE conns + 1) /\ n' = 0 /\ hist' = (IF SeqOn THEN hist ELSE Append(hist, "Dial"))
   /\ allocK' = 0 /\ recvK' = 0
-  /\ UNCHANGED <<alive, stuck>>
+  /\ UNCHANGED <<alive, stuck, pm, univ>>
 
-Next == Connect \/ Dial \/ \E c \in Classes : Recv(c)
+\* ------------------------------------------------------------------ the sequence layer
+SeqReady == SeqOn /\ alive /\ ~stuck
+\* a message of <= 1 KiB is processed within the bound
+SeqCost == allocK' = C /\ recvK' = 1
+\* one BlocksMsg carrying the blocks ds in this order
+SBlocks(ds) ==
+  /\ SeqReady /\ phase = "Est"
+  /\ LET r == Deliver(pm, ds, 1) IN
+       /\ pm' = r.pm
+       /\ phase' = IF r.drop THEN "Undet" ELSE phase       \* the designed reaction to a "different genesis" block is to drop the peer
+       /\ Assert(IdsEnvelope({BId(d) : d \in r.pm.bc}, {BId(d) : d \in pm.bc}, ds, pm.known, pm.stable)
+                 /\ CountEnvelope(Cardinality(r.pm.bc), Cardinality(r.pm.cc), Cardinality(pm.bc), Cardinality(pm.cc), Len(ds), 0),
+                 "the design leaves the envelope")
+  /\ SeqCost /\ UNCHANGED <<dir, alive, stuck, n, conns, hist, univ>>
+\* one ConfirmMsg for block d "signed" by s
+SConfirm(d, s) ==
+  /\ SeqReady /\ phase = "Est"
+  /\ pm' = Confirm(pm, d, s)
+  /\ Assert(CountEnvelope(Cardinality(pm'.bc), Cardinality(pm'.cc), Cardinality(pm.bc), Cardinality(pm.cc), 0, 1), "the design leaves the envelope")
+  /\ SeqCost /\ UNCHANGED <<phase, dir, alive, stuck, n, conns, hist, univ>>
+\* the manager's queue timer passes (it runs whether or not a peer is connected).  Deviation: a pass that empties two
+\* height slots of the cache kills the node (removal from the slot list while ranging over it).
+Tick ==
+  /\ SeqReady /\ phase \in {"Est", "Closed", "Undet"}
+  /\ pm' = TickPm(pm)
+  /\ Assert(IdsEnvelope({BId(d) : d \in pm'.bc}, {BId(d) : d \in pm.bc}, <<>>, pm.known, pm.stable)
+            /\ CountEnvelope(Cardinality(pm'.bc), Cardinality(pm'.cc), Cardinality(pm.bc), Cardinality(pm.cc), 0, 0), "the design leaves the envelope")
+  /\ alive' = ~("Dev_CachePassEmptiesTwoSlots" \in Dev /\ Cardinality(EmptiedSlots(pm)) >= 2)
+  /\ allocK' = 0 /\ recvK' = 0
+  /\ UNCHANGED <<phase, dir, stuck, n, conns, hist, univ>>
+
+Next == \/ Connect \/ Dial \/ \E c \in Classes : Recv(c)
+        \/ \E ds \in SeqMsgs : SBlocks(ds)
+        \/ \E c \in SeqConfirms : SConfirm(c[1], c[2])
+        \/ Tick
 Spec == Init /\ [][Next]_vars
 
 \* ------------------------------------------------------------------ the clauses of the property
@@ -121,4 +177,17 @@ TypeOK == /\ phase \in {"Idle", "PreHs", "OutHs", "ProtoHs", "Est", "Closed", "U
           /\ \A t \in Table : t[3] \in {"close", "keep", "adv", "any"} /\ t[7] \in {"none", "panic", "stuck", "alloc"}
                               /\ t[2] \subseteq OpenPhases
           /\ Carriers \subseteq Classes /\ Heavy \subseteq Classes /\ \A p \in DOMAIN Probe : Probe[p] \in Classes
+          /\ SeqOn \in BOOLEAN /\ SeqMix \subseteq Classes /\ univ = SeqBlocks
+          /\ \A ds \in SeqMsgs : \A i \in 1..Len(ds) : ds[i] \in SeqBlocks
+          /\ \A c \in SeqConfirms : c[1] \in SeqBlocks
+          /\ pm.bc \subseteq SeqBlocks /\ pm.known \subseteq {BId(d) : d \in SeqBlocks} \cup {"G"} /\ pm.stable \in Nat
+\* ------------------------------------------------------------------ the sequence layer: what the design maintains
+\* only blocks that have to wait are kept: above the stable height, not a "different genesis" block, not on the chain
+SeqCacheWaiting == \A d \in pm.bc : BH(d) > 1 /\ BH(d) > pm.stable /\ BId(d) \notin pm.known
+\* a confirm is kept only while the chain does not have the block (or it was filed under a height that is not the block's)
+SeqConfirmsWaiting == \A c \in pm.cc : BId(c[1]) \notin pm.known \/ CH(c) # BH(c[1])
+\* valid blocks are accepted along the parent relation only
+SeqChainLinear == \A d \in SeqBlocks : BId(d) \in pm.known => BValid(d) /\ BP(d) \in pm.known
+\* a pass of the timer leaves nothing in the cache whose parent the chain had before the pass
+SeqTickDrains == [][(pm' # pm /\ phase' = phase /\ allocK' = 0 /\ recvK' = 0 /\ SeqOn) => \A d \in pm'.bc : BP(d) \notin pm.known]_vars
 ====
